@@ -560,6 +560,145 @@ func (a *account) SignBeaconAttestation(context.Context, uint64, uint64, []byte,
 
 var _ e2wtypes.AccountProtectingSigner = (*account)(nil)
 
+// plainAccount is a local key: it is handed a signing root only (AccountSigner).  The harness
+// recovers what was signed by searching the signing roots of the candidates around the duty: a
+// root that is none of them is recorded with Unknown fields.
+type plainAccount struct {
+	id uint64
+	w  *world
+}
+
+func (a *plainAccount) ID() uuid.UUID                { var u uuid.UUID; put(u[:], a.id); return u }
+func (a *plainAccount) Name() string                 { return fmt.Sprintf("account %d", a.id) }
+func (a *plainAccount) PublicKey() e2types.PublicKey { return fakePub{pubkeyOf(a.id)} }
+
+func signingRoot(object phase0.Root, domain phase0.Domain) [32]byte {
+	r, err := (&phase0.SigningData{ObjectRoot: object, Domain: domain}).HashTreeRoot()
+	if err != nil {
+		panic(err)
+	}
+	return r
+}
+
+func (a *plainAccount) Sign(_ context.Context, data []byte) (e2types.Signature, error) {
+	in := a.w.in
+	var root [32]byte
+	if len(data) == 32 {
+		copy(root[:], data)
+	}
+	epochs := map[uint64]bool{}
+	slots := map[uint64]bool{in.Slot: true, in.Slot + 1: true}
+	if in.Slot > 0 {
+		slots[in.Slot-1] = true
+	}
+	if in.Proposal != nil && in.Proposal.Block != nil {
+		slots[in.Proposal.Block.Slot] = true
+	}
+	for s := range slots {
+		e := s / in.SPE
+		epochs[e], epochs[e+1] = true, true
+		if e > 0 {
+			epochs[e-1] = true
+		}
+	}
+	types := []phase0.DomainType{domainRandao, domainProposer}
+	// a RANDAO reveal: the epoch as a root
+	for e1 := range epochs {
+		var obj phase0.Root
+		binary.LittleEndian.PutUint64(obj[:8], e1)
+		for e2 := range epochs {
+			for _, t := range types {
+				if signingRoot(obj, domainOf(t, e2)) == root {
+					a.w.rec.add("signrandao", a.id, e1, uint64(t[0]), e2)
+					if in.SigRandao == nil {
+						return nil, errors.New("scripted signing failure")
+					}
+					s := sigOf(*in.SigRandao)
+					return fakeSig{s[:]}, nil
+				}
+			}
+		}
+	}
+	// a block header
+	if lp := a.w.lastProposal; lp != nil {
+		var roots []phase0.Root
+		if r, err := lp.ParentRoot(); err == nil {
+			roots = append(roots, r)
+		}
+		if r, err := lp.StateRoot(); err == nil {
+			roots = append(roots, r)
+		}
+		if r, err := lp.BodyRoot(); err == nil {
+			roots = append(roots, r)
+		}
+		indices := map[uint64]bool{in.Validator: true}
+		if in.Proposal != nil && in.Proposal.Block != nil {
+			indices[in.Proposal.Block.Proposer] = true
+		}
+		name := func(r phase0.Root) uint64 {
+			if id := a.w.tab.id(r, nil); id != Unknown {
+				return id
+			}
+			return get(r[:])
+		}
+		for sl := range slots {
+			for idx := range indices {
+				for _, pr := range roots {
+					for _, sr := range roots {
+						for _, br := range roots {
+							hdr := &phase0.BeaconBlockHeader{Slot: phase0.Slot(sl), ProposerIndex: phase0.ValidatorIndex(idx), ParentRoot: pr, StateRoot: sr, BodyRoot: br}
+							obj, err := hdr.HashTreeRoot()
+							if err != nil {
+								continue
+							}
+							for e2 := range epochs {
+								for _, t := range types {
+									if signingRoot(obj, domainOf(t, e2)) == root {
+										body := a.w.tab.id(br, nil)
+										if body == Unknown {
+											body = name(br)
+										}
+										a.w.rec.add("signblock", a.id, sl, idx, get(pr[:]), get(sr[:]), body, uint64(t[0]), e2)
+										if in.SigBlock == nil {
+											return nil, errors.New("scripted signing failure")
+										}
+										s := sigOf(*in.SigBlock)
+										return fakeSig{s[:]}, nil
+									}
+								}
+							}
+						}
+					}
+				}
+			}
+		}
+	}
+	// none of the candidates
+	if a.w.lastProposal == nil {
+		a.w.rec.add("signrandao", a.id, Unknown, Unknown, Unknown)
+		if in.SigRandao == nil {
+			return nil, errors.New("scripted signing failure")
+		}
+		s := sigOf(*in.SigRandao)
+		return fakeSig{s[:]}, nil
+	}
+	a.w.rec.add("signblock", a.id, Unknown, Unknown, Unknown, Unknown, Unknown, Unknown, Unknown)
+	if in.SigBlock == nil {
+		return nil, errors.New("scripted signing failure")
+	}
+	s := sigOf(*in.SigBlock)
+	return fakeSig{s[:]}, nil
+}
+
+var _ e2wtypes.AccountSigner = (*plainAccount)(nil)
+
+func (w *world) newAccount(id uint64) e2wtypes.Account {
+	if w.in.Plain {
+		return &plainAccount{id: id, w: w}
+	}
+	return &account{id: id, rec: w.rec, in: w.in, tab: w.tab}
+}
+
 // ---------------------------------------------------------------------------------------------
 // Providers.
 
@@ -567,6 +706,8 @@ type world struct {
 	in  *Input
 	rec *recorder
 	tab *bodyTable
+	// the proposal last handed to vouch (the plain account searches its roots)
+	lastProposal *api.VersionedProposal
 }
 
 // accounts provider
@@ -601,7 +742,7 @@ func (w *world) ValidatingAccountsForEpochByIndex(_ context.Context, epoch phase
 		if e.Account == nil {
 			m[phase0.ValidatorIndex(e.Index)] = nil
 		} else {
-			m[phase0.ValidatorIndex(e.Index)] = &account{id: *e.Account, rec: w.rec, in: w.in, tab: w.tab}
+			m[phase0.ValidatorIndex(e.Index)] = w.newAccount(*e.Account)
 		}
 	}
 	return m, nil
@@ -761,7 +902,8 @@ func (w *world) Proposal(_ context.Context, opts *api.ProposalOpts) (*api.Respon
 	if w.in.Proposal == nil {
 		return nil, errors.New("scripted proposal failure")
 	}
-	return &api.Response[*api.VersionedProposal]{Data: w.tab.buildProposal(w.in.Proposal), Metadata: map[string]any{}}, nil
+	w.lastProposal = w.tab.buildProposal(w.in.Proposal)
+	return &api.Response[*api.VersionedProposal]{Data: w.lastProposal, Metadata: map[string]any{}}, nil
 }
 
 // submitter
